@@ -400,13 +400,35 @@ func arithAtoms(f *sexp, bound map[string]bool, out map[string]*sexp) {
 		return
 	}
 	h := f.head()
-	if h == "forall" || h == "exists" || h == "let" {
+	if (h == "forall" || h == "exists") && len(f.list) == 3 {
+		nb := map[string]bool{}
+		for k := range bound {
+			nb[k] = true
+		}
+		for _, b := range f.list[1].list {
+			if b.list != nil && len(b.list) > 0 {
+				nb[b.list[0].atom] = true
+			}
+		}
+		arithAtoms(f.list[2], nb, out)
+		return
+	}
+	if h == "let" {
 		return
 	}
 	if h == "<" || h == "<=" || h == ">" || h == ">=" {
 		for _, c := range f.list[1:] {
 			if c.list == nil && !isNumeral(c) && !bound[c.atom] && c.atom != "" && !strings.HasPrefix(c.atom, "sk!") {
 				out[c.atom] = c
+			}
+			// small ground sums such as (+ idx 1): loop counters
+			if (c.head() == "+" || c.head() == "-") && len(c.list) == 3 && isGround(c, bound) && len(c.String()) < 60 {
+				out[c.String()] = c
+				for _, a := range c.list[1:] {
+					if a.list == nil && !isNumeral(a) && a.atom != "" {
+						out[a.atom] = a
+					}
+				}
 			}
 		}
 	}
@@ -508,8 +530,65 @@ func augment(lines []string, guard, goal string, intFuncs map[string]bool) (extr
 	}
 	sk, consts := skolemise(g, &counter)
 	newGoal = sk.String()
+	// key-position arguments of map families in the goal are candidates for key-sorted variables
+	keySort := map[string]string{}
+	for _, l := range lines {
+		if strings.HasPrefix(l, "(declare-fun F_M") {
+			f := strings.Fields(l)
+			if len(f) >= 4 && strings.HasPrefix(f[2], "(Int") {
+				keySort[f[1]] = strings.TrimSuffix(f[3], ")")
+			}
+		} else if strings.HasPrefix(l, "(define-fun F_M") {
+			f := strings.Fields(l)
+			// (define-fun NAME ((r!a Int) (r!b SORT)) ...
+			if len(f) >= 6 && f[2] == "((r!a" {
+				keySort[f[1]] = strings.TrimSuffix(f[5], "))")
+			}
+		}
+	}
 	var terms []*sexp
 	other := map[string][]*sexp{}
+	{
+		keyTerms := map[string]*sexp{}
+		var walk func(f *sexp, bound map[string]bool)
+		walk = func(f *sexp, bound map[string]bool) {
+			if f.list == nil {
+				return
+			}
+			h := f.head()
+			if (h == "forall" || h == "exists") && len(f.list) == 3 {
+				nb := map[string]bool{}
+				for k := range bound {
+					nb[k] = true
+				}
+				for _, b := range f.list[1].list {
+					if b.list != nil && len(b.list) > 0 {
+						nb[b.list[0].atom] = true
+					}
+				}
+				walk(f.list[2], nb)
+				return
+			}
+			if srt, ok := keySort[h]; ok && len(f.list) == 3 && srt != "Int" {
+				k := f.list[2]
+				if k.list != nil && isGround(k, bound) && len(k.String()) < 400 {
+					keyTerms[srt+"|"+k.String()] = k
+				}
+			}
+			for _, c := range f.list {
+				walk(c, bound)
+			}
+		}
+		walk(sk, map[string]bool{})
+		n := 0
+		for _, k := range sortedSexpKeys(keyTerms) {
+			srt := k[:strings.Index(k, "|")]
+			if n < 3 {
+				other[srt] = append(other[srt], keyTerms[k])
+				n++
+			}
+		}
+	}
 	for _, c := range hypConsts {
 		extraDecls = append(extraDecls, fmt.Sprintf("(declare-const %s %s)", c[0], c[1]))
 		if c[1] != "Int" {
